@@ -804,6 +804,23 @@ def check_whole_outputs(chk, tier):
                 chk.expect(not other, 'R09.7', 'file-names[%s]' % label, 'unexpected output files %r' % other, site + ':file-names')
                 if (pretty, multiple) == modes[0] or tier == 'thorough':
                     witness.append((label, files))
+    # formatting neutrality of complete outputs: pretty and compact single-file outputs are the same C program
+    for multiple in (0, 1):
+        asts = {}
+        for pretty in (0, 1):
+            files = R.render(it, mk, K, all_ids, [], pretty, multiple)
+            text = files['mod.h'] + '\n' + files['mod.c'].replace('#include "mod.h"', '')
+            wtu = astdb.dump_ast('<whole-output:p%d,m%d>' % (pretty, multiple), flags=['-std=gnu89', '-DWASM_THREADS_PTHREADS', '-I' + astdb.src('w2c2')],
+                                 text=text, config='whole')
+            asts[pretty] = {name: _relabel(canon(astdb.fn_body(f), wtu), f) for name, f in wtu.functions.items()
+                            if (astdb.file_of(f) or '').startswith('<') or name.startswith(('mod', 'f'))}
+        names0 = {n_ for n_ in asts[0] if re.match(r'(mod|f\d)', n_)}
+        names1 = {n_ for n_ in asts[1] if re.match(r'(mod|f\d)', n_)}
+        chk.expect(names0 == names1 and len(names0) >= K + 4, 'R09.4', 'whole-output-functions[m%d]' % multiple,
+                   'pretty and compact outputs define different functions: %r vs %r' % (sorted(names0), sorted(names1)), site + ':pretty')
+        for n_ in sorted(names0 & names1):
+            chk.expect(asts[0][n_] == asts[1][n_], 'R09.4', 'whole-output[%s,m%d]' % (n_, multiple),
+                       'function %s of the generated module is a different C program with and without -p (typed ASTs differ)' % n_, site + ':pretty')
     # compile witness: every file on its own against the generated header
     picked = witness if tier == 'thorough' else witness[::5]
     nc = 0
